@@ -519,10 +519,6 @@ for _k in ["normal", "promotion", "enpassant", "castling_short", "castling_long"
     ob("stack_discipline_" + _k, "chess::verif_chess::stack_discipline_" + _k, ["C02", "C03", "C15"],
        f"{_k}: state stack of ANY length 2..=511: push appends one entry above an unchanged stack (arrayvec capacity assertion holds), pop removes it; earlier entries untouched",
        _FPUSH + ["Game::pop"], tier="thorough", timeout=3600)
-ob("position_fen_contract", "uci::verif_uci::position_fen_contract", ["C17", "C12"],
-   "slice verif_position_fen vs abstract FEN reader (any verdict), with or without a previously loaded game: refused => error and no game left; accepted => that game is current; the six fields reach the reader joined by single spaces",
-   ["uci::command_position (`fen` arm)"], timeout=900)
-OB_SLICES["position_fen_contract"] = ["verif_position_fen"]
 
 ob("gen_king_safety_{i}", "chess::verif_chess::inst::gen_king_safety::sq{i}", ["C15"],
    "king of the side to move on sq of ANY board / state byte (no WF6: rights may be held off the home square, as the FEN reader allows): generation stays on the board, every unchecked index in range",
